@@ -12,6 +12,9 @@ CLAIMED = {
  "C03": ("proptest: near-miss candidates (same-kind nodes, scoped tree mutations) vs. O-align, an independent existential legal-alignment relation (reference model), at all strictness levels",
          "Randomised exploration: hundreds of thousands of (pattern, candidate, strictness) triples per run; every reported match must have a legal alignment under the documented strictness table, and the reported match length must stay inside the node and on a token boundary.",
          "Trusted: the pattern tree as parsed by ast-grep (matching is independent); O-align is deliberately at least as permissive as documentation + documented tests, so only soundness is claimed.", "DESIGN.md §5 C03"),
+ "C05": ("proptest: generated rule trees x generated sources, evaluated on every node by the implementation and by O-eval, an independent reference evaluator over raw tree-sitter nodes (differential against a reference model)",
+         "Randomised exploration: ~10^4 (quick) to 3x10^5 (thorough) generated rule trees over all operators, stopBy kinds, field, An+B/reverse/ofRule, utilities and multi-key objects, each compared with the reference on every node of a small source; disagreements are localised to the smallest disagreeing sub-rule.",
+         "Trusted: pattern leaves (delegated to Pattern, decided by C02/C03), regex crate, tree-sitter navigation primitives parent/child(i)/next_sibling/child_by_field_name.", "DESIGN.md §5 C05"),
  "C10": ("proptest: generated edit histories vs. fresh-parse reference + independent raw tree-sitter incremental chain (differential), shrinking to replay files",
          "Randomised exploration: thousands of generated edit histories per run over all 23 languages; after every step the document text must equal the O-splice model and, when the text parses error-free, the tree must equal a fresh parse (a divergence that an independent, correctly driven tree-sitter incremental chain reproduces exactly is the listed tree-sitter known finding). No absence claim.",
          "Trusted: tree-sitter's fresh parse as reference; the harness's own InputEdit chain; the property is only asserted at error-free steps.", "DESIGN.md §5 C10"),
